@@ -309,8 +309,8 @@ theorem inv_step {s s' : Sys} {l : Label} (hi : Inv s) (h : s.step l = some s') 
     subst h
     exact inv_remotePut hi k cb
 
-theorem inv_init (maxSize : Nat) (progs : List (List CallSpec)) (ro : CmdRef → Nat) :
-    Inv (Sys.init maxSize progs ro) := by
+theorem inv_init (maxSize : Nat) (progs : List (List CallSpec)) (ro : CmdRef → Nat) (c0 : Nat) :
+    Inv (Sys.init maxSize progs ro c0) := by
   refine { fifo := rfl, pairQ := ?_, pairP := ?_, disp := ?_, ares := ?_, firedGood := ?_, keys := ?_,
            token := ?_, enq1 := ?_, retJust := ?_, fullFired := ?_, builtOk := ?_, waitOk := ?_ }
   · intro e he; simp [Sys.init] at he
